@@ -83,6 +83,7 @@ theorem runHandler_noerr : ∀ (h : Handler) (k : K), hCanFail h = false → NoE
   | .rewrite id p, k, _, hk => fun r t => by simp [runHandler, hk _ _]
   | .fail id st, k, hf, _ => by simp [hCanFail] at hf
   | .raise src, k, hf, _ => by simp [hCanFail] at hf
+  | .invoke n, k, hf, _ => by simp [hCanFail] at hf
   | .answer src, k, hf, _ => fun r t => by
     cases src <;> simp [hCanFail] at hf <;> simp [runHandler, Src.resolve, Out.isErr]
   | .sub rs hasErrs errs, k, hf, hk => fun r t => by
@@ -151,6 +152,7 @@ theorem h_ok : ∀ (h : Handler) (ks : Bool) (k : K) (r : Req) (t : Trace),
   | .rewrite id p, ks, k, r, t, _, _ => by simp [runHandler, specHandler, Res.bind]
   | .fail id st, ks, k, r, t, _, _ => by simp [runHandler, specHandler, Res.bind]
   | .raise src, ks, k, r, t, _, _ => by simp [runHandler, specHandler, Res.bind]
+  | .invoke n, ks, k, r, t, _, _ => by simp [runHandler, specHandler, Res.bind]
   | .answer src, ks, k, r, t, _, _ => by
     cases src <;> simp only [runHandler, specHandler, Res.bind] <;>
       (try cases Src.resolve _ r) <;> simp
@@ -318,6 +320,7 @@ theorem specHandler_keeps : ∀ (h : Handler) (r : Req) (t : Trace), (specHandle
   | .rewrite id p, r, t => by simp [specHandler, Res.KeepsGroups]
   | .fail id st, r, t => by simp [specHandler, Res.KeepsGroups]
   | .raise src, r, t => by simp [specHandler, Res.KeepsGroups]
+  | .invoke n, r, t => by simp [specHandler, Res.KeepsGroups]
   | .answer src, r, t => by
     cases src <;> simp only [specHandler] <;> (try split) <;> simp [Res.KeepsGroups]
   | .sub rs hasErrs errs, r, t => by
@@ -422,6 +425,7 @@ theorem runHandler_pok : ∀ (h : Handler) (k : K), KPlaceholderOk k → KPlaceh
   | .fail id st, k, _ => fun r t hr ht => by
     simp only [runHandler, Out.trace]; exact snoc_ok ht (ev_ok id r hr)
   | .raise src, k, _ => fun r t _ ht => by simpa [runHandler, Out.trace] using ht
+  | .invoke n, k, _ => fun r t _ ht => by simpa [runHandler, Out.trace] using ht
   | .answer src, k, _ => fun r t _ ht => by
     cases src <;> simp only [runHandler, Src.resolve] <;> (try cases r.replStatus) <;>
       simpa [Out.trace] using ht
@@ -456,5 +460,210 @@ theorem runRoute_pok : ∀ (rt : Route) (k : K), KPlaceholderOk k → KPlacehold
           · exact kOk_termK r
           · exact hk
 end
+
+/-! ### `inlineNamed` resolves every defined name when named routes only invoke later ones -/
+
+mutual
+/-- every `invoke` of a DEFINED name inside names a route > `b` -/
+def hsResGt (env : List Route) (b : Nat) : List Handler → Bool
+  | [] => true
+  | h :: hs => hResGt env b h && hsResGt env b hs
+def hResGt (env : List Route) (b : Nat) : Handler → Bool
+  | .invoke n => (lookupNamed env n).isNone || decide (n > b)
+  | .sub rs _ errs => rsResGt env b rs && rsResGt env b errs
+  | _ => true
+def rsResGt (env : List Route) (b : Nat) : List Route → Bool
+  | [] => true
+  | rt :: rs => rResGt env b rt && rsResGt env b rs
+def rResGt (env : List Route) (b : Nat) : Route → Bool
+  | .mk _ _ hs _ => hsResGt env b hs
+end
+
+theorem lookupNamed_le {env : List Route} {n : Nat} {rt : Route} (h : lookupNamed env n = some rt) :
+    1 ≤ n ∧ n ≤ env.length := by
+  unfold lookupNamed at h
+  split at h
+  · cases h
+  · have := List.getElem?_eq_some_iff.mp h
+    obtain ⟨hlt, _⟩ := this
+    omega
+
+theorem namedValid_get : ∀ (env : List Route) (j i : Nat) (rt : Route),
+    namedValid j env = true → env[i]? = some rt → rInvGt (j + i + 1) rt = true
+  | [], _, _, _, _, h => by simp at h
+  | r :: rs, j, 0, rt, hv, h => by
+    simp only [namedValid, Bool.and_eq_true] at hv
+    simp at h; subst h; simpa using hv.1
+  | r :: rs, j, i + 1, rt, hv, h => by
+    simp only [namedValid, Bool.and_eq_true] at hv
+    have := namedValid_get rs (j + 1) i rt hv.2 (by simpa using h)
+    have e : j + 1 + i + 1 = j + (i + 1) + 1 := by omega
+    rw [e] at this; exact this
+
+theorem namedValid_lookup {env : List Route} {n : Nat} {rt : Route}
+    (hv : namedValid 0 env = true) (h : lookupNamed env n = some rt) : rInvGt n rt = true := by
+  have hle := lookupNamed_le h
+  unfold lookupNamed at h
+  split at h
+  · cases h
+  · have := namedValid_get env 0 (n - 1) rt hv h
+    have e : 0 + (n - 1) + 1 = n := by omega
+    rw [e] at this; exact this
+
+mutual
+theorem hsInvGt_resGt : ∀ (env : List Route) (m b : Nat) (hs : List Handler), b ≤ m →
+    hsInvGt m hs = true → hsResGt env b hs = true
+  | _, _, _, [], _, _ => by simp [hsResGt]
+  | env, m, b, h :: hs, hb, hh => by
+    simp only [hsInvGt, Bool.and_eq_true] at hh
+    simp only [hsResGt, Bool.and_eq_true]
+    exact ⟨hInvGt_resGt env m b h hb hh.1, hsInvGt_resGt env m b hs hb hh.2⟩
+theorem hInvGt_resGt : ∀ (env : List Route) (m b : Nat) (h : Handler), b ≤ m →
+    hInvGt m h = true → hResGt env b h = true
+  | env, m, b, .invoke n, hb, hh => by
+    simp only [hInvGt, decide_eq_true_eq] at hh
+    simp only [hResGt, Bool.or_eq_true, decide_eq_true_eq]
+    right; omega
+  | env, m, b, .sub rs he es, hb, hh => by
+    simp only [hInvGt, Bool.and_eq_true] at hh
+    simp only [hResGt, Bool.and_eq_true]
+    exact ⟨rsInvGt_resGt env m b rs hb hh.1, rsInvGt_resGt env m b es hb hh.2⟩
+  | _, _, _, .pass _, _, _ => by simp [hResGt]
+  | _, _, _, .respond _ _, _, _ => by simp [hResGt]
+  | _, _, _, .rewrite _ _, _, _ => by simp [hResGt]
+  | _, _, _, .fail _ _, _, _ => by simp [hResGt]
+  | _, _, _, .raise _, _, _ => by simp [hResGt]
+  | _, _, _, .answer _, _, _ => by simp [hResGt]
+theorem rsInvGt_resGt : ∀ (env : List Route) (m b : Nat) (rs : List Route), b ≤ m →
+    rsInvGt m rs = true → rsResGt env b rs = true
+  | _, _, _, [], _, _ => by simp [rsResGt]
+  | env, m, b, rt :: rs, hb, hh => by
+    simp only [rsInvGt, Bool.and_eq_true] at hh
+    simp only [rsResGt, Bool.and_eq_true]
+    exact ⟨rInvGt_resGt env m b rt hb hh.1, rsInvGt_resGt env m b rs hb hh.2⟩
+theorem rInvGt_resGt : ∀ (env : List Route) (m b : Nat) (rt : Route), b ≤ m →
+    rInvGt m rt = true → rResGt env b rt = true
+  | env, m, b, .mk _ _ hs _, hb, hh => by
+    simp only [rInvGt] at hh
+    simp only [rResGt]
+    exact hsInvGt_resGt env m b hs hb hh
+end
+
+mutual
+theorem inlineHs_step : ∀ (env : List Route) (b : Nat) (hs : List Handler), namedValid 0 env = true →
+    hsResGt env b hs = true → hsResGt env (b + 1) (inlineHs env hs) = true
+  | _, _, [], _, _ => by simp [inlineHs, hsResGt]
+  | env, b, h :: hs, hv, hh => by
+    simp only [hsResGt, Bool.and_eq_true] at hh
+    simp only [inlineHs, hsResGt, Bool.and_eq_true]
+    exact ⟨inlineH_step env b h hv hh.1, inlineHs_step env b hs hv hh.2⟩
+theorem inlineH_step : ∀ (env : List Route) (b : Nat) (h : Handler), namedValid 0 env = true →
+    hResGt env b h = true → hResGt env (b + 1) (inlineH env h) = true
+  | env, b, .invoke n, hv, hh => by
+    simp only [inlineH]
+    cases hl : lookupNamed env n with
+    | none => simp [hResGt, hl]
+    | some rt =>
+      simp only [hResGt, hl, Option.isNone_some, Bool.false_or, decide_eq_true_eq] at hh
+      simp only [hResGt, rsResGt, Bool.and_true]
+      exact rInvGt_resGt env n (b + 1) rt (by omega) (namedValid_lookup hv hl)
+  | env, b, .sub rs he es, hv, hh => by
+    simp only [hResGt, Bool.and_eq_true] at hh
+    simp only [inlineH, hResGt, Bool.and_eq_true]
+    exact ⟨inlineRs_step env b rs hv hh.1, inlineRs_step env b es hv hh.2⟩
+  | _, _, .pass _, _, _ => by simp [inlineH, hResGt]
+  | _, _, .respond _ _, _, _ => by simp [inlineH, hResGt]
+  | _, _, .rewrite _ _, _, _ => by simp [inlineH, hResGt]
+  | _, _, .fail _ _, _, _ => by simp [inlineH, hResGt]
+  | _, _, .raise _, _, _ => by simp [inlineH, hResGt]
+  | _, _, .answer _, _, _ => by simp [inlineH, hResGt]
+theorem inlineRs_step : ∀ (env : List Route) (b : Nat) (rs : List Route), namedValid 0 env = true →
+    rsResGt env b rs = true → rsResGt env (b + 1) (inlineRs env rs) = true
+  | _, _, [], _, _ => by simp [inlineRs, rsResGt]
+  | env, b, rt :: rs, hv, hh => by
+    simp only [rsResGt, Bool.and_eq_true] at hh
+    simp only [inlineRs, rsResGt, Bool.and_eq_true]
+    exact ⟨inlineR_step env b rt hv hh.1, inlineRs_step env b rs hv hh.2⟩
+theorem inlineR_step : ∀ (env : List Route) (b : Nat) (rt : Route), namedValid 0 env = true →
+    rResGt env b rt = true → rResGt env (b + 1) (inlineR env rt) = true
+  | env, b, .mk _ _ hs _, hv, hh => by
+    simp only [rResGt] at hh
+    simp only [inlineR, rResGt]
+    exact inlineHs_step env b hs hv hh
+end
+
+mutual
+theorem hsResGt_zero : ∀ (env : List Route) (hs : List Handler), hsResGt env 0 hs = true
+  | _, [] => by simp [hsResGt]
+  | env, h :: hs => by simp [hsResGt, hResGt_zero env h, hsResGt_zero env hs]
+theorem hResGt_zero : ∀ (env : List Route) (h : Handler), hResGt env 0 h = true
+  | env, .invoke n => by
+    simp only [hResGt, Bool.or_eq_true, decide_eq_true_eq]
+    cases n with
+    | zero => left; simp [lookupNamed]
+    | succ m => right; omega
+  | env, .sub rs he es => by simp [hResGt, rsResGt_zero env rs, rsResGt_zero env es]
+  | _, .pass _ => by simp [hResGt]
+  | _, .respond _ _ => by simp [hResGt]
+  | _, .rewrite _ _ => by simp [hResGt]
+  | _, .fail _ _ => by simp [hResGt]
+  | _, .raise _ => by simp [hResGt]
+  | _, .answer _ => by simp [hResGt]
+theorem rsResGt_zero : ∀ (env : List Route) (rs : List Route), rsResGt env 0 rs = true
+  | _, [] => by simp [rsResGt]
+  | env, rt :: rs => by simp [rsResGt, rResGt_zero env rt, rsResGt_zero env rs]
+theorem rResGt_zero : ∀ (env : List Route) (rt : Route), rResGt env 0 rt = true
+  | env, .mk _ _ hs _ => by simp [rResGt, hsResGt_zero env hs]
+end
+
+mutual
+theorem hsResolved : ∀ (env : List Route) (hs : List Handler), hsResGt env env.length hs = true →
+    hsUnresolved env hs = false
+  | _, [], _ => by simp [hsUnresolved]
+  | env, h :: hs, hh => by
+    simp only [hsResGt, Bool.and_eq_true] at hh
+    simp [hsUnresolved, hResolved env h hh.1, hsResolved env hs hh.2]
+theorem hResolved : ∀ (env : List Route) (h : Handler), hResGt env env.length h = true →
+    hUnresolved env h = false
+  | env, .invoke n, hh => by
+    simp only [hResGt, Bool.or_eq_true, decide_eq_true_eq] at hh
+    simp only [hUnresolved]
+    cases hl : lookupNamed env n with
+    | none => rfl
+    | some rt =>
+      have := lookupNamed_le hl
+      rcases hh with h1 | h1
+      · simp [hl] at h1
+      · omega
+  | env, .sub rs he es, hh => by
+    simp only [hResGt, Bool.and_eq_true] at hh
+    simp [hUnresolved, rsResolved env rs hh.1, rsResolved env es hh.2]
+  | _, .pass _, _ => by simp [hUnresolved]
+  | _, .respond _ _, _ => by simp [hUnresolved]
+  | _, .rewrite _ _, _ => by simp [hUnresolved]
+  | _, .fail _ _, _ => by simp [hUnresolved]
+  | _, .raise _, _ => by simp [hUnresolved]
+  | _, .answer _, _ => by simp [hUnresolved]
+theorem rsResolved : ∀ (env : List Route) (rs : List Route), rsResGt env env.length rs = true →
+    rsUnresolved env rs = false
+  | _, [], _ => by simp [rsUnresolved]
+  | env, rt :: rs, hh => by
+    simp only [rsResGt, Bool.and_eq_true] at hh
+    simp [rsUnresolved, rResolved env rt hh.1, rsResolved env rs hh.2]
+theorem rResolved : ∀ (env : List Route) (rt : Route), rResGt env env.length rt = true →
+    rUnresolved env rt = false
+  | env, .mk _ _ hs _, hh => by
+    simp only [rResGt] at hh
+    simp [rUnresolved, hsResolved env hs hh]
+end
+
+theorem inlineNamed_resGt (env : List Route) (hv : namedValid 0 env = true) :
+    ∀ (n b : Nat) (rs : List Route), rsResGt env b rs = true → rsResGt env (b + n) (inlineNamed env n rs) = true
+  | 0, b, rs, h => by simpa [inlineNamed] using h
+  | n + 1, b, rs, h => by
+    have := inlineNamed_resGt env hv n (b + 1) (inlineRs env rs) (inlineRs_step env b rs hv h)
+    have e : b + 1 + n = b + (n + 1) := by omega
+    rw [e] at this
+    simpa [inlineNamed] using this
 
 end CaddyModel.C05
